@@ -490,6 +490,8 @@ def body_invariant(ctx):
                                     tr.L = Lin.const(0)
                                 else:
                                     why = "body_vec is replaced by something whose length the invariant proof does not know"
+                            elif seg == "take" and path in ("std::mem::take", "core::mem::take"):
+                                tr.L = Lin.const(0)         # the whole vector is moved out, an empty one stays
                             elif seg in ("push", "append", "insert", "resize", "retain", "split_off", "swap_remove", "remove", "pop", "replace", "take", "swap"):
                                 why = "body_vec is modified by %s, which the invariant proof does not model" % seg
                         elif path in facts.fns and path.startswith(conn.P) and args and look(args[0]) == ("arg", 1) and _takes_mut_self(facts, path):
